@@ -166,6 +166,28 @@ def oracle_bbox(stations, dconv_lons, qlons, qlats, tol):
     return din, dc
 
 
+def ontree_bbox_model(stations, qlons, qlats, tol):
+    """Station ids the algorithm of the unchanged tree computes (box taken in the *dataset's* convention, wrapped branch
+    for 0-360 datasets). Used only to label a failure as one of the known defects, never to accept a result."""
+    dl = [float(s[0]) for s in stations]
+    d360 = min(dl) >= 0 and max(dl) <= 360
+    q360 = min(qlons) >= 0 and max(qlons) <= 360
+    consistent = d360 == q360
+    ql = [float(x) for x in qlons]
+    if not consistent:
+        if min(ql) < 0 and max(ql) <= 180:
+            ql = [x % 360 for x in ql]
+        elif q360:
+            ql = [x - 360 if x > 180 else x for x in ql]
+    lo, hi = min(ql) - tol, max(ql) + tol
+    la0, la1 = min(qlats) - tol, max(qlats) + tol
+    lat_ok = [la0 <= s[1] <= la1 for s in stations]
+    n = len(stations)
+    if not (d360 and not consistent):
+        return [j for j in range(n) if lat_ok[j] and lo <= dl[j] <= hi]
+    return [j for j in range(n) if lat_ok[j] and hi <= dl[j] <= 360] + [j for j in range(n) if lat_ok[j] and 0 <= dl[j] <= lo]
+
+
 # ---------------------------------------------------------------------------------------------
 # dataset under test
 # ---------------------------------------------------------------------------------------------
@@ -418,7 +440,11 @@ def check_case(case, ds=None):
             good = (None not in gs) and len(gs) == len(got) and len(got) > 0 and din <= gs <= (din | dc)
         if not good:
             dset360 = min(s[0] for s in stations) >= 0
-            if dset360 and qconv == "180" and max(qlons) < 0:
+            mod = ontree_bbox_model(stations, qlons, qlats, tol)
+            as_ontree = (status == "fail" and not mod) or (status == "ok" and sorted(mod) == sorted(x for x in got if x is not None) and len(mod) == len(got))
+            if not as_ontree:
+                sig = "bbox|stations-inside-box|dset=%s,query=%s,tol%s" % (dconv, qconv, ">0" if tol > 0 else "=0")
+            elif dset360 and qconv == "180" and max(qlons) < 0:
                 sig = "bbox|stations-inside-box|dset360-query180-box-west-of-greenwich"
             elif dset360 and qconv == "180" and tol > 0:
                 sig = "bbox|widened-by-tolerance|dset360-query180-box-straddles-greenwich"
